@@ -1080,22 +1080,19 @@ impl Variant for Struct {
     }
 
     fn super_union(&self, other: &Self) -> Result<Self> {
-        let self_fields: Vec<String> = self
-            .fields
-            .iter()
-            .map(|(f, _)| f.clone())
-            .unique()
-            .collect();
+        // A struct value has to carry every field of its type: only the fields
+        // present on both sides can be required of the values of both
         let other_fields: Vec<String> = other
             .fields
             .iter()
             .map(|(f, _)| f.clone())
             .unique()
             .collect();
-        self_fields
-            .into_iter()
-            .chain(other_fields.into_iter())
-            .into_iter()
+        self.fields
+            .iter()
+            .map(|(f, _)| f.clone())
+            .unique()
+            .filter(|f| other_fields.contains(f))
             .map(|f| {
                 Ok((
                     f.clone(),
